@@ -107,6 +107,17 @@ func c04Run(c *core.Ctx) {
 			}
 		}
 	}
+	// a lexical construct that is never closed, with 40 lines of tokens behind its opener: the scanner has counted all the
+	// lines while looking ahead, every token that follows lies far behind the last known line start
+	for _, pre := range []string{"<?php /*", "<?php '", "<?php \"", "<?php `", "<?php <<<A\n", "<?php <<<'A'\n", "<?php /**"} {
+		for _, nl := range []string{"\n", "\r\n", "\r"} {
+			for _, v := range []*version.Version{drive.V74, drive.V56} {
+				if c.Next() {
+					c04One(c, mkCase(pre+strings.Repeat(nl+"$a;", 40), v, "unclosed lexical construct with many lines behind it"))
+				}
+			}
+		}
+	}
 	// multi-line regions: every place where line terminators are part of one token (strings, heredoc and nowdoc bodies,
 	// comments, inline HTML, the data behind __halt_compiler();) filled with every sequence of <= 3 (thorough 4) line
 	// terminators out of LF, CRLF and a lone CR, with and without a terminator at either end; a token follows on a later line
